@@ -115,4 +115,54 @@ func init() {
 			g.p("def %sCalls : List String := %s", h, leanStrList(calls))
 		}
 	}
+	props["C03"] = func(g *gen) {
+		sd := g.methodDecl(fProxy, "Proxy", "setDest")
+		// when a destination change is skipped as "the same destination": the condition of the first if whose body returns nil
+		// after the same-destination log line (the first IfStmt of the body that compares destinations)
+		same := ""
+		for _, st := range sd.Body.List {
+			is, ok := st.(*ast.IfStmt)
+			if !ok {
+				continue
+			}
+			src := oneLine(g.src(is))
+			if strings.Contains(src, "same as current") {
+				same = oneLine(g.src(is.Cond))
+				break
+			}
+		}
+		if same == "" {
+			fail("setDest: the same-destination test was not found")
+		}
+		g.p("/-- `Proxy.setDest`: when a change of destination is skipped because it is \"the same as current\" -/")
+		g.p("def sameDestCond : String := \"%s\"", leanEsc(same))
+		// the order in which setDest stops and starts the readers and relays and talks to the miner
+		vocab := map[string]bool{"AutoReadStop": true, "AutoReadStart": true, "StopDestToSource": true, "StopSourceToDest": true,
+			"resendRelevantNotifications": true, "closeOldestConn": true, "SetDest": true, "StartDestToSource": true, "StartSourceToDest": true, "connectNewDest": true}
+		var seq []string
+		for _, c := range callNames(sd.Body.List, 1) {
+			if vocab[c] {
+				seq = append(seq, c)
+			}
+		}
+		g.p("/-- the calls `Proxy.setDest` makes on readers, relay directions and the miner, in source order (function literals not entered) -/")
+		g.p("def setDestCalls : List String := %s", leanStrList(seq))
+	}
+	props["C09b"] = func(g *gen) {
+		// lib.ChanRecvStop.Send (the seller watcher's miner-disconnect channel): the arms of its select
+		fd := g.methodDecl("internal/lib/chan.go", "ChanRecvStop", "Send")
+		var arms []string
+		ast.Inspect(fd, func(n ast.Node) bool {
+			if cc, ok := n.(*ast.CommClause); ok {
+				if cc.Comm == nil {
+					arms = append(arms, "default")
+				} else {
+					arms = append(arms, oneLine(g.src(cc.Comm)))
+				}
+			}
+			return true
+		})
+		g.p("/-- the arms of the select in `ChanRecvStop.Send` -/")
+		g.p("def sendArms : List String := %s", leanStrList(arms))
+	}
 }
